@@ -67,7 +67,13 @@ class FillRequestSeq(lena_sequence.LenaSequence):
             check_sequence_type.is_fill_request_el,
             el_name="FillRequest", seq_name="FillRequestSeq"
         )
-        fr = adapters.FillRequest(self, **kwargs)
+        try:
+            fr = adapters.FillRequest(self, **kwargs)
+        except exceptions.LenaException:
+            raise
+        except TypeError as err:
+            # unknown keyword arguments
+            raise exceptions.LenaTypeError(str(err))
         # just for tests
         self._fr = fr
         self._reset = fr._reset
